@@ -152,6 +152,7 @@ func runC08(c *Ctx) {
 	c.Has(r2, ss, "subscriber added in the same action", `^mapupdate:.*\.subscribers\[%subscriber\]=nil$|^call:router\.\(\*broker\)\.syncInitSubscription\(%b, %msg\.Topic, %match, %subscriber\)$`, 1)
 	sr := dlr + "syncRegister"
 	c.Has(r2, sr, "REGISTERED sent in the action that adds the callee", `^call:router\.\(\*dealer\)\.trySend\(%d, %callee, new\(wamp\.Registered\)\)$`, 1)
+	ruleNoDuplicateCallee(c, r2) // one entry per callee: UNREGISTERED really ends the INVOCATIONs
 	c.R.Floor(r2, 50)
 
 	const r3 = "C08.R3 hand-offs are unbuffered and consumed by one loop"
